@@ -2,6 +2,7 @@ package c06
 
 import (
 	"fmt"
+	"strings"
 
 	"github.com/zclconf/go-cty/cty"
 	"github.com/zclconf/go-cty/cty/function"
@@ -346,12 +347,17 @@ func caseStdlib(m *monitor, r *core.Rand) string {
 	}
 	fd := fnTable[r.Intn(len(fnTable))]
 	var args []cty.Value
-	if r.Chance(1, 12) {
-		args = genericArgs(r, fd.fn)
-	} else {
-		args = fd.args(r)
+	if o := core.Guard(func() {
+		if r.Chance(1, 12) {
+			args = genericArgs(r, fd.fn)
+		} else {
+			args = fd.args(r)
+		}
+		args = perturb(r, args)
+	}); o.Panicked {
+		m.c.Count("stdlib:argument-generator-panicked")
+		return "stdlib " + fd.name + " (argument generator panicked)"
 	}
-	args = perturb(r, args)
 	site := "stdlib." + fd.name
 	wit := func() string { return fd.name + gsAll(args) }
 	var out cty.Value
@@ -403,7 +409,11 @@ func caseMakeTo(m *monitor, r *core.Rand) string {
 	var out cty.Value
 	var err error
 	if m.call("stdlib.MakeToFunc", func() { out, err = f.Call(args) }) && err == nil {
-		m.see("stdlib.MakeToFunc", convClass(target), out, wit)
+		cls := "target plain"
+		if strings.Contains(convClass(target), "optional") {
+			cls = clsTargOpt
+		}
+		m.see("stdlib.MakeToFunc", cls, out, wit)
 	}
 	return wit()
 }
